@@ -18,6 +18,7 @@
 import Gama.Lemmas.Ls.GsoRefuse
 import Gama.Lemmas.Ls.GsoExample
 import Gama.Lemmas.Ls.GsoReal
+import Gama.Lemmas.Ls.GsoGapExample
 import Gama.Lemmas.LS
 namespace Gama.Props.C01
 open Gama Gama.Ls Gama.LS Gama.Ls.Gso Matrix
@@ -63,6 +64,30 @@ example : Unambiguous Ex.pR ∧ ∃ a, gsoSolve Ex.pR = .ok a ∧ a.x = #[0, 1] 
     ∧ a.defect = 1 := by
   obtain ⟨a, h2, h3, h4, h5, _⟩ := Ex.pR_answers
   exact ⟨Ex.pR_unambiguous, a, h2, h3, h4, h5⟩
+
+/-- DESIGN (B): the same conclusion with "rank numerically unambiguous" stated on exact quantities
+    of the problem for the first orthogonalisation — `GapCols p`: every unnormalised Gram–Schmidt
+    vector of the columns of A (the residual of column k after projection on columns 1..k−1) has
+    norm 0 or > tolerance — instead of on the model's trace.  The norms of the SECOND
+    orthogonalisation (`tested.drop n`; none when the defect is 0, see
+    `Gso.gso_unambiguous_of_gap_regular`) are still constrained on the trace.
+    FULL (B) NOT PROVED: the exact counterpart for the second orthogonalisation would be
+    "for every flagged J, the kernel vector g with g_J = 1, g_i = 0 (i > J), S-orthogonal to all
+    kernel vectors supported below J, has S-norm 0 or > tolerance". -/
+theorem C01_gso_of_gap_partial (p : Problem K) (hG : GapCols p)
+    (h2 : ∀ r ∈ (runOf p).tested.drop p.n, r = 0 ∨ (tolerance : K) < r)
+    (a : Answer K) (h : gsoSolve p = .ok a) :
+    IsLSSolution p.A p.b 1 p.S (toVec p.n a.x) (toVec p.m a.r) a.rtr :=
+  C01_gso p (gso_unambiguous_of_gap p hG h2) a h
+
+/-- non-vacuity: `Ex.pR` satisfies the gap hypothesis (Gram–Schmidt vectors (1,0) and 0) and its
+    single second-phase norm is 1 -/
+example : GapCols Ex.pR ∧ (∀ r ∈ (runOf Ex.pR).tested.drop Ex.pR.n, r = 0 ∨ (tolerance : ℝ) < r) := by
+  refine ⟨Ex.pR_gap, ?_⟩
+  rw [Ex.pR_tested]
+  intro r hr
+  have : r = 1 := by simpa [Ex.pR] using hr
+  rw [this]; exact Or.inr Ex.tol_lt_one
 
 -- ------------------------------------------------------------------ refusal clause of C02
 
